@@ -116,6 +116,35 @@ CHECKS = {
              "The 'after a restart' clause is decided by correspondence/oracle (open findings emptyBlockAllocated, scanStopsAtEmptyBlock); > MAX_ALLOC entries: sealThenAllocFail. "
              "Concurrent observers of a batch in flight are C05. After rollbackKeepsNewBlock fired, implementation/model divergences (panic in `limit - offset`) are tolerated and counted.",
              tech="Lean 4 proof (corollaries of the FIFO refinement; unfolding of the batch write path under an injected fault) + fault-injection correspondence + oracle", ref="§6 C04"),
+ "C07": dict(text="Partial. Crash model: `kill` (death between operations) and `crashAt kind n fd op` (death inside op, immediately before its n-th I/O event; hook H1 performs _exit at exactly "
+             "those points on the real engine). Theorems: C07_crash_in_append_touches_no_entry (old WAL files untouched, at most new empty files, whether or not the append had rotated / rolled "
+             "over), C07_crash_in_read_touches_no_entry, C07_kill_touches_no_entry. That startup_chore then finds every entry that is on disk is decided by correspondence + oracle: ~470 "
+             "histories per quick run with the process killed inside appends/batches at every entry write (io_uring: before submission and at the completions), both backends, then reopen, "
+             "counts, more operations, full drain; the model's post-crash disk and recovery must agree with the real engine operation by operation.",
+             note=BASE_NOTE + "Process-crash model of the statement (completed syscalls persist; tmpfs). Crash points are the instrumented I/O events; torn single writes are not produced. "
+             "False in the regions of the open findings emptyBlockAllocated / scanStopsAtEmptyBlock (acknowledged entries behind an allocated-but-empty block are not recovered) and those of C06.",
+             tech="Lean 4 proof (frame lemmas of the write and read path under an injected process death) + crash-point correspondence (real _exit at I/O events) + oracle", ref="§6 C07"),
+ "C08": dict(text="FALSE on this tree (open finding batchNotCrashAtomic): C08_counterexample_prefix, replayed on the real engine on every run (sequential write path, _exit before the second Block::write). "
+             "Proved instead: C08_partial_prefix_only (what reaches the disk is a prefix of the write plan on both paths, never an arbitrary subset), C08_partial_single_entry_atomic, "
+             "C08_partial_uring_points (at the hook's io_uring crash points the batch is recovered entirely or not at all). The check prints the listed finding and reports anything that is not "
+             "explained by it (a non-prefix subset, a prefix on the io_uring path) as a new violation.",
+             note=BASE_NOTE + "A kernel-level kill between two completed SQEs of one io_uring submission cannot be placed by the hook (runtime truth). Same crash model as C07.",
+             tech="Lean 4 proof (counterexample by kernel evaluation; prefix/atomicity lemmas of the crash model) + crash-point correspondence + oracle", ref="§6 C08"),
+ "C09": dict(text="Partial. Theorems: C09_crash_in_read_keeps_every_wal_file (a death inside read_next / a batch read at any I/O boundary can move the position but never lose, alter or add an entry), "
+             "C09_read_next_persists_only_its_own_position + C09_other_topics_untouched (the index after the crash is the old index with a prefix of the read's own <= 2 persists applied: other "
+             "topics untouched, no later position can appear). Which entry the recovered position denotes after startup_chore is decided by correspondence + oracle: ~500 histories per quick run "
+             "with the process killed inside consuming reads at every index-persist boundary (tmp write, rename), StrictlyAtOnce and AtLeastOnce{1..8}, sealed and tail positions.",
+             note=BASE_NOTE + "Not decided: the AtLeastOnce redelivery bound (persist_every) - the oracle only checks that nothing is skipped. False in the regions of the open findings "
+             "emptyBlockAllocated, scanStopsAtEmptyBlock, cursorsNotStableAcrossDeletion, clockRegressionReordersFiles. Same crash model as C07.",
+             tech="Lean 4 proof (index-persist log of the read path; frame lemmas) + crash-point correspondence (real _exit at index persists) + oracle", ref="§6 C09"),
+ "C12": dict(text="Partial. Theorems on the reclamation bookkeeping (Model/Alloc.lean, carried through every operation of Eng): C12_enqueue_only_when_counters_say_so, C12_checkpoint_counts_once "
+             "(idempotence: the defect repaired by fdf7990), C12_peeks_do_not_mark, C12_reclaim_deletes_only_queued. What ties the counters to 'every entry of the file is consumed' over all "
+             "histories is decided by correspondence: tracker tuples of every WAL file (trks), the reclaimer's victims (reclaim) and the directory listing (ls) of the real engine are compared with "
+             "the model's throughout ~220 reclamation-heavy histories per quick run (4-block files, 3 topics, peeks, offset reads, empty polls, restarts) + FIFO oracle across restarts. FALSE for the "
+             "clause 'or after a restart': C12_counterexample_cursorsNotStableAcrossDeletion (open finding, replayed on the real engine on every run).",
+             note=BASE_NOTE + "The reclaimer's 1000-tick period is replaced by a synchronous pass (hook H3). Production geometry (100 blocks per file) is covered by the model with the generated constants, not by runs. "
+             "AtLeastOnce durability of consumption (aloNotDurable) is not examined.",
+             tech="Lean 4 proof (tracker algebra lemmas; counterexample by kernel evaluation) + differential correspondence on tracker tuples / reclaimer victims + oracle", ref="§6 C12"),
 }
 NOT_APPLICABLE = {
  "C19": "statement about the vendored openraft core + QUIC transport + tokio runtime, none of which can be built or run offline here (tokio, quinn, rustls, futures absent from the registry); a free-standing Raft proof would be tied to nothing (DESIGN.md §6 C19)",
